@@ -238,7 +238,7 @@ def gen_outcome(rng, sv, m):
     if mm["throws"]:
         choices += ["declared"] * 3
     if not m["oneway"] and mm["ret"] is not None and L.head_kind(sv.prog, mm["ret"]) == "struct":
-        choices += ["unwritable"] * 2
+        choices += ["unwritable"] * 5
     k = rng.choice(choices)
     spec = {"method": m["go"], "result": m["result_key"]}
     extra = []
@@ -543,6 +543,11 @@ def run_service(ctx, sv, nframes, st, nbatches):
         conns = [[] for _ in range(ncon)]
         for i in range(n):
             conns[rng.randrange(ncon)].append(i)
+        # frames that end the connection (undecodable header / envelope) go last on it, all but one of them
+        enders = [i for i in range(n) if parse_request(frames[i]["frame"]) is None]
+        keep_inside = set(enders[:1])
+        conns = [[i for i in c if i not in enders or i in keep_inside] + [i for i in c if i in enders and i not in keep_inside]
+                 for c in conns]
         conns = [(c, rng.choice([0, 0, 1, 7])) for c in conns if c]
         results = {}
         for mode in MODES:
